@@ -42,11 +42,11 @@ type ViolationRecord struct {
 	// Shard/Of identify the worker that found the violation; Prefix marks a violation that only reproduces after
 	// the earlier runs of that worker (it depends on process-wide state those runs left behind): the replay then
 	// re-executes run indexes Shard, Shard+Of, … up to Index in one process.
-	Shard  int  `json:"shard"`
-	Of     int  `json:"of"`
-	Prefix bool `json:"needs_earlier_runs_of_worker,omitempty"`
-	Execs    int       `json:"shrink_execs,omitempty"`
-	Note     string    `json:"note,omitempty"`
+	Shard  int    `json:"shard"`
+	Of     int    `json:"of"`
+	Prefix bool   `json:"needs_earlier_runs_of_worker,omitempty"`
+	Execs  int    `json:"shrink_execs,omitempty"`
+	Note   string `json:"note,omitempty"`
 }
 
 // WorkerResult is what one worker process reports.
